@@ -37,7 +37,8 @@ for e in m['engines']:
 json.dump(m, open(os.path.join(VERIF, 'MANIFEST.json'), 'w'), indent=1)
 try:
     import jsonschema
+    jsonschema.validate(m, json.load(open('/root/.vp/MANIFEST.schema.json')))
+    ok = 'schema ok'
 except ImportError:
-    sys.exit(os.system("python3-vt %s --validate-only" % os.path.abspath(__file__)) >> 8) if "--validate-only" not in sys.argv else sys.exit(0)
-jsonschema.validate(m, json.load(open('/root/.vp/MANIFEST.schema.json')))
-print('MANIFEST.json: %d checks, %d not applicable; schema ok' % (len(checks), len(m['not_applicable'])))
+    ok = 'schema not validated (run with python3-vt for jsonschema)'
+print('MANIFEST.json: %d checks, %d not applicable; %s' % (len(checks), len(m['not_applicable']), ok))
